@@ -564,6 +564,7 @@ def _show(i):
 
 def run(ctx: lib.Ctx) -> None:
     rng = ctx.rng
+    V.install_sorted_check()
     ctx.rule = ('one run_code call per case: key type among string/int/nat/bytes/pair/or/option/address/key_hash (nested), a universe of '
                 '3-5 keys differing in one leaf; the big_map is an id whose on-chain content is a random subset of the universe (60 %), '
                 'a sorted literal (25 %) or empty; history of up to 30 (quick) / 300 (thorough) UPDATE (set/remove), GET_AND_UPDATE, GET, MEM '
@@ -741,3 +742,4 @@ def run(ctx: lib.Ctx) -> None:
                        'model': ctx.coq_eval(IMPORTS, f'{"bm_case" if vt.ticket else "xs_case"} {cases[bad[0]][0]}')[:3000], 'disagreements': len(bad)}, found=False)
     ctx.extra['cases'] = len(cases)
     ctx.extra['instructions_executed'] = sum(len(m[5]) for m in meta)
+    V.report_sorted_check(ctx)
